@@ -257,6 +257,10 @@ func (s *Scanner) Scan(src interface{}) error {
 	// }
 	switch {
 	case s.Tags.Contains("binary"):
+		// The binlog hands VARBINARY/BINARY columns back as Go strings.
+		if str, ok := src.(string); ok {
+			src = []byte(str)
+		}
 		b, ok := src.([]byte)
 		if !ok {
 			return fmt.Errorf("binary column must be of type []byte, got %T", src)
